@@ -95,8 +95,8 @@ def main():
     try:
         sh("git apply %s" % patch, cwd="/repo", check=True)
         for c in checks:
-            code, out = sh("./check %s %s" % (c, tier), cwd=ROOT)
-            whys = sorted(set(re.findall(r"violation: (.*)", out)))
+            code, out = sh("./check %s %s" % (c, tier) if c != "growth" else "./check growth", cwd=ROOT)
+            whys = sorted(set(re.findall(r"violation: (.*)", out) + re.findall(r"^DEVIATION (.*?) vector=", out, re.M)))
             results[c] = {"exit": code, "violations": whys[:6], "summary": out.strip().splitlines()[-1] if out.strip() else ""}
             print("check %s %s -> exit %d  %s" % (c, tier, code, whys[:3]))
     finally:
